@@ -486,3 +486,12 @@ Proof. vm_compute. reflexivity. Qed.
 Example tags_survive_stop :
   tags (final init [Tag [(0, [Keep 5])]; Stop true; StateChanged true PAUSED READY NULL]) = [(0, [5])].
 Proof. vm_compute. reflexivity. Qed.
+
+(* The defect fixed by repo commit 38eca32, about the pre-fix code: the payload sent at
+   stream start and the payload read later differ. *)
+Lemma prefix_live_view_refuted :
+  exists pre rest, sent_keys pre <> late_view_keys pre rest.
+Proof.
+  exists [SetUri 1 false; Tag [(0, [Keep 1])]], [Tag [(1, [Keep 2])]].
+  vm_compute. discriminate.
+Qed.
